@@ -27,7 +27,7 @@ from ..util import digest, short, stream
 
 ID = "C14"
 PRELOAD = ["sqllineage.runner", "sim.props.c14"]
-BUDGET_S = {"quick": 150.0, "thorough": 1500.0}
+BUDGET_S = {"quick": 240.0, "thorough": 1500.0}
 ENVVAR = "SQLLINEAGE_DEFAULT_SCHEMA"
 ACC = [a for a in canon.ACCESSORS if a not in ("statements", "print_table", "print_column")]
 TPL = {t[0]: t for t in TEMPLATES + ZOO}
@@ -297,6 +297,9 @@ def run_one(spec: dict) -> dict:
                 t.idx,
             )
 
+    if "env0" in spec:
+        set_env(spec["env0"])
+        probe("env_changed_then_threads_analyse_concurrently")
     for i, prog in enumerate(spec["threads"]):
         def mk(prog=prog):
             def body():
@@ -450,7 +453,7 @@ def _needed(spec) -> set:
     pre = (spec.get("pre_env") or {}).get(ENVVAR)
     for p in spec["threads"]:
         for st in p:
-            for S in {st["S"], pre, None} | set(spec.get("operator") or []):
+            for S in {st["S"], pre, None, spec.get("env0")} | set(spec.get("operator") or []):
                 need.add((st["tpl"], S))
     return need
 
@@ -477,7 +480,7 @@ def _with_refs(spec, refs):
     pre = (spec.get("pre_env") or {}).get(ENVVAR)
     for p in spec["threads"]:
         for st in p:
-            for S in {st["S"], pre, None} | set(spec.get("operator") or []):
+            for S in {st["S"], pre, None, spec.get("env0")} | set(spec.get("operator") or []):
                 need.add(f"{st['tpl']}|{S}")
     s = dict(spec)
     s["refs"] = {k: refs[k] for k in need if k in refs}
@@ -501,6 +504,17 @@ def gen(seed) -> dict:
     mode = g.choice(["scoped_threads", "scoped_threads", "env_history", "preimport"])
     threads = []
     operator = []
+    if stream(seed, "gen-env-shared").random() < 0.12:
+        # the environment mechanism with several analysing threads: the variable was changed (or removed) since the
+        # process last looked, then 2-3 threads analyse at the same time under whatever it says now - nobody flips it
+        # during the run, so every analysis has one right answer
+        ge = stream(seed, "gen-env-shared-body")
+        env0 = ge.choice([x for x in ["s1", "used", "q", None] if x != pre and (x is not None or pre is not None)])
+        small = [t for t in SMALL if t in TPL]
+        threads = [[{"tpl": ge.choice(small), "S": None, "mech": "none"} for _ in range(ge.choice([1, 1, 2]))] for _ in range(ge.choice([2, 2, 3]))]
+        return {"seed": seed, "pre_env": ({ENVVAR: pre} if pre else {}), "hash_seed": ge.choice([0, 1]), "threads": threads, "operator": [], "env0": env0,
+                "env_shared": True, "sched": ge.choice(["random", "sticky50", "pct1", "pct2", "pct3", "retbias", "retbias"]), "line": True,
+                "gran": ge.choice(["line", "line", "instr"]), "foreign": []}
     if mode == "scoped_threads":
         n = g.choice([1, 2, 2, 3])
         for _ in range(n):
